@@ -34,6 +34,7 @@ type lrState struct {
 	Actions     []string            `json:"actions"`   // per terminal: "nil", "accept", "shift N", "reduce N"
 	Conflicts   map[string][]string `json:"conflicts"` // terminal -> competing actions (sorted)
 	CanRecover  bool                `json:"canRecover"`
+	ActionPanic string              `json:"actionPanic,omitempty"`
 }
 
 type lrProd struct {
@@ -137,18 +138,30 @@ func cmdLR(_ *bufio.Reader, out *bufio.Writer, args []string) {
 		for _, it := range set.Items {
 			st.Items = append(st.Items, lrItem{Prod: it.ProdIdx, Pos: it.Pos, LA: it.FollowingSymbol})
 		}
-		for _, sym := range tokenMap.TypeMap {
-			act, confl := set.Action(sym)
-			st.Actions = append(st.Actions, actString(act))
-			if len(confl) > 0 {
-				cs := []string{}
-				for _, c := range confl {
-					cs = append(cs, actString(c))
+		// the action row of a state may panic (conflict with Accept): keep the item sets of all states anyway
+		func() {
+			defer func() {
+				if r := recover(); r != nil {
+					st.ActionPanic = fmt.Sprint(r)
+					st.Actions = nil
+					if d.Panic == "" {
+						d.Panic = fmt.Sprint(r)
+					}
 				}
-				sort.Strings(cs)
-				st.Conflicts[sym] = cs
+			}()
+			for _, sym := range tokenMap.TypeMap {
+				act, confl := set.Action(sym)
+				st.Actions = append(st.Actions, actString(act))
+				if len(confl) > 0 {
+					cs := []string{}
+					for _, c := range confl {
+						cs = append(cs, actString(c))
+					}
+					sort.Strings(cs)
+					st.Conflicts[sym] = cs
+				}
 			}
-		}
+		}()
 		if len(st.Conflicts) > 0 {
 			d.NumConflicts++
 		}
